@@ -315,7 +315,7 @@ def check_c03(prop, tier, seed):
 def check_c09(prop, tier, seed):
     q = tier == 'quick'
     plan = opt_plan(tier, seed) + [('opt', programs.guards('opt'), dict(pb=2, max_exec=2000 if q else 20000))]
-    res = lock_abs_check(prop, tier, seed, ['CkVersion', 'CkProgress'], plan)
+    res = lock_abs_check(prop, tier, seed, ['CkVersion', 'CkProgress', 'CkCompat'], plan)
     res['assumptions'] = LOCK_ASSUME + ['versions are concrete 32-bit values (compared as 16-bit halves)',
                                         'a version that disturbs the mode bits shows up as a blocked final probe (CkProgress)']
     return res
@@ -343,7 +343,7 @@ def check_c11(prop, tier, seed):
             ('mcs', programs.twosec('mcs'), dict(pb=2, max_exec=2500 if q else 30000)),
             ('mcs', programs.four('mcs', full=not q), dict(pb=1 if q else 2, max_exec=500 if q else 8000)),
             ('mcs', programs.five('mcs'), dict(pb=1, max_exec=400 if q else 5000))]
-    res = lock_abs_check(prop, tier, seed, ['CkFifo'], plan, fifo=True)
+    res = lock_abs_check(prop, tier, seed, ['CkFifo', 'CkCompat'], plan, fifo=True)
     res['assumptions'] = LOCK_ASSUME + ['arrival = the first modification of the lock object inside a Lock* call (derived from the '
                                         'instrumented operation stream)']
     return res
@@ -1467,9 +1467,9 @@ wrap_l2('C01', ALL3, 'safety', {'Compat', 'WordOK'}, b2_lock_abs(['CkCompat']))
 wrap_l2('C02', ALL3, 'safety', {'NoDeadlock', 'FreeAtEnd', 'Termination'}, b2_lock_abs(['CkProgress']))
 wrap_l2('C03', ('opt',), 'safety', {'OptSound', 'OptComplete', 'SampleOK'}, b2_lock_abs(['CkOptimistic', 'CkCompat']))
 wrap_l2('C08', ALL3, 'hb', {'HB'}, b2_hb)
-wrap_l2('C09', ('opt',), 'safety', {'VerOK', 'WordOK'}, b2_lock_abs(['CkVersion', 'CkProgress']))
+wrap_l2('C09', ('opt',), 'safety', {'VerOK', 'WordOK'}, b2_lock_abs(['CkVersion', 'CkProgress', 'CkCompat']))
 wrap_l2('C10', ALL3, 'safety', {'Compat', 'WordOK'}, b2_lock_abs(['CkConvAtomic', 'CkCompat']))
-wrap_l2('C11', ('mcs',), 'safety', {'Fifo'}, b2_lock_abs(['CkFifo'], fifo=True))
+wrap_l2('C11', ('mcs',), 'safety', {'Fifo'}, b2_lock_abs(['CkFifo', 'CkCompat'], fifo=True))
 wrap_l2('C12', ('mcs',), 'safety', {'NodeSafe', 'GuardNodes', 'LiveBound', 'FreeAtEnd'}, b2_nodes)
 wrap_l2('C13', ('opt',), 'safety', {'PrepareOK', 'SampleOK', 'Compat'}, b2_lock_abs(['CkPrepare', 'CkOptimistic', 'CkGuards', 'CkProgress', 'CkCompat']))
 
